@@ -801,6 +801,11 @@ func genCliTLSok(rng *rand.Rand, thorough bool, emit func(*Sx)) {
 					tlsPhase := ehloReply(ts) + "250 2.1.0 ok\r\n250 2.1.5 ok\r\n250 2.0.0 ok\r\n221 2.0.0 bye\r\n"
 					cs := cliCase{stream: []byte(plain), tlsStream: []byte(tlsPhase), focus: "starttls-ok"}
 					cs.cuts = []int{len("220 ready\r\n"), len(plain) - len(inj)}
+					if variant == 1 {
+						// the injected replies share a raw read with the 220: they sit in the client's buffer at
+						// the upgrade and must be dropped
+						cs.cuts = []int{len("220 ready\r\n")}
+					}
 					mo := &smtp.MailOptions{}
 					ro := &smtp.RcptOptions{}
 					switch variant {
